@@ -1,6 +1,19 @@
 #!/bin/sh
-# tryseed.sh <property-id> <tree-with-the-change> [extra check args]
-# Runs ./check <id> against a modified copy of the repository WITHOUT touching /repo or the shared build.
-id=$1; tree=$2; shift 2
-name=$(basename "$tree")
-cd /verif && VERIF_REPO="$tree" VERIF_ALT="$name" ./check "$id" "$@"
+# tryseed.sh <property-id> <patch.diff> [extra check args]
+# Applies the patch to a scratch worktree of /repo's current HEAD (plus the current verif_* hook files),
+# runs ./check <id> against it WITHOUT touching /repo or the shared build (alt-tree mode), removes the worktree.
+id=$1; patch=$(readlink -f "$2"); shift 2
+name=seedrun_$$
+wt=/tmp/$name
+git -C /repo worktree add --detach "$wt" HEAD -q || exit 2
+# current hook files (may be newer than HEAD / untracked)
+(cd /repo && find . -name 'verif_*.go' -not -path './.git/*') | while read f; do mkdir -p "$wt/$(dirname $f)"; cp "/repo/$f" "$wt/$f"; done
+if ! git -C "$wt" apply "$patch" 2>/tmp/$name.err; then
+  if ! git -C "$wt" apply --3way "$patch" 2>>/tmp/$name.err; then echo "patch does not apply:"; cat /tmp/$name.err; git -C /repo worktree remove --force "$wt"; exit 2; fi
+fi
+cd /verif && VERIF_REPO="$wt" VERIF_ALT="$name" ./check "$id" "$@"
+rc=$?
+mkdir -p /verif/build/seedruns && rm -rf "/verif/build/seedruns/$id-$(basename $(dirname $patch))" && mv "/verif/build/alt/$name/replay" "/verif/build/seedruns/$id-$(basename $(dirname $patch))" 2>/dev/null
+rm -rf "/verif/build/alt/$name"
+git -C /repo worktree remove --force "$wt"
+exit $rc
